@@ -3,7 +3,7 @@
 # (leaves /repo untouched, so it can be used while other runs use /repo). Keeps /tmp/ms between calls for build caching;
 # remove it with `tools/mutant_scratch.sh --clean`.
 set -u
-MS=/tmp/ms
+MS=${MS:-/tmp/ms}
 if [ "$1" = "--clean" ]; then git -C /repo worktree remove --force $MS/repo 2>/dev/null; rm -rf $MS; git -C /repo worktree prune; exit 0; fi
 patch="$1"; shift
 if [ ! -d $MS/repo ]; then mkdir -p $MS; git -C /repo worktree prune; git -C /repo worktree add -q --detach $MS/repo HEAD || exit 2; fi
